@@ -46,6 +46,11 @@ def check_c15(case, stats):
   given = None
   if case['basis'] == 'array':
     given = gen.basis_from_seed(case['K'], d, case['aseed']) * (1.0 + (case['aseed'] % 3))   # not necessarily unit norm
+    if case['aseed'] % 4 == 1 and len(given) >= 3:
+      # a basis "used as given" may list a direction more than once (each copy gets its own weight)
+      given[-1] = given[0]
+      given[len(given) // 2] = given[1 % len(given)]
+      stats.classes['array-basis-with-repeated-rows'] += 1
     params['basis'] = given.copy()
   else:
     params['basis'] = case['basis']
